@@ -1,9 +1,9 @@
 (* C03  Resource allocation is exclusive and two-way consistent at every step.
    Statements only; proofs in Proofs/AllocInv.v (structure) and
-   Proofs/ResourceState.v (worker / facility states). *)
+   Proofs/C03Res.v (worker / facility states). *)
 From Coq Require Import List ZArith QArith Bool Arith.
 From PV Require Import Model.Types Model.Sim Model.Example Proofs.Base Proofs.RunLemmas Proofs.C01Proof
-  Proofs.AllocInv Proofs.LogsProof.
+  Proofs.AllocInv Proofs.LogsProof Proofs.C03Res.
 Import ListNotations.
 Open Scope nat_scope.
 
@@ -25,6 +25,35 @@ Theorem C03_exclusive_and_consistent : forall c, wf_resources c -> forall o s,
   Forall (fun ob : obs => AInv c (snd ob)) (snd (simulate c o s)) /\ AInv c (fst (simulate c o s)).
 Proof. intros c (H1 & H2 & H3 & H4) o s. apply AInv_all_runs; assumption. Qed.
 Print Assumptions C03_exclusive_and_consistent.
+
+(* (d): in every `allocated`, `performed` and `recorded` snapshot of every run
+   the state of each worker and facility is  Rexp working k absences x :
+     ABSENCE  if step k is a project-wide absence step or k is in the
+              resource's own absence list,
+     otherwise WORKING if it holds a task and FREE if it holds none
+   (C03_Rexp_spec spells out the two "exactly when" clauses).  At `updated`
+   snapshots the states are those of the previous step except for the resources
+   released by finished tasks (C03_release_on_finish). *)
+Theorem C03_resource_states : forall c, wf_resources c -> forall o s, o_init_state o = true ->
+  Forall (fun ob : obs => match snd (fst ob) with
+                          | PUpdated => True
+                          | _ => let x := snd ob in let working := negb (mem (time x) (o_abs o)) in
+                                 (forall w, w < nW c -> rst (wd x w) = Rexp working (time x) (w_abs c w) (wd x w))
+                                 /\ (forall f, f < nF c -> rst (fd x f) = Rexp working (time x) (f_abs c f) (fd x f))
+                          end)
+         (snd (simulate c o s)).
+Proof. intros c (H1 & H2 & H3 & _) o s Hs. exact (resources_all_runs c H1 H2 H3 o s Hs). Qed.
+Print Assumptions C03_resource_states.
+
+Theorem C03_Rexp_spec : forall working k abs x,
+  (Rexp working k abs x = RAbsence <-> (working = false \/ mem k abs = true))
+  /\ (Rexp working k abs x = RWorking <-> (working = true /\ mem k abs = false /\ asg x <> []))
+  /\ (Rexp working k abs x = RFree <-> (working = true /\ mem k abs = false /\ asg x = [])).
+Proof.
+  intros working k abs x. unfold Rexp.
+  destruct working, (mem k abs), (asg x); cbn; repeat split; intros; try tauto; try discriminate;
+    try (destruct H as [H|H]; discriminate); try (destruct H as (A & B & D); try discriminate; congruence); auto.
+Qed.
 
 (* (e): everything a task held is released when it becomes FINISHED: after
    finishing task t, t lists nothing, the workers and facilities it held are
